@@ -7,6 +7,12 @@ mod env;
 mod p_c01;
 mod p_c05;
 mod p_c15;
+mod p_c04;
+mod p_shuffle;
+mod p_keys;
+mod p_misc;
+mod p_sigma;
+mod p_wire;
 mod val;
 
 use crate::core::*;
@@ -23,7 +29,21 @@ fn run_prop<C: NatCtx>(h: &mut Harness, ctx: C, builtin: bool) {
     v.h.comment(&format!("context {}", tok));
     let r = std::panic::catch_unwind(std::panic::AssertUnwindSafe(|| match prop.as_str() {
         "C01" => p_c01::run(&mut v),
+        "C02" => p_shuffle::run_c02(&mut v),
+        "C03" => p_shuffle::run_c03(&mut v),
+        "C04" => p_c04::run(&mut v),
         "C05" => p_c05::run(&mut v),
+        "C06" => p_sigma::run_c06(&mut v),
+        "C07" => p_sigma::run_c07(&mut v),
+        "C08" => p_keys::run_c08(&mut v),
+        "C09" => p_keys::run_c09(&mut v),
+        "C10" => p_keys::run_c10(&mut v),
+        "C11" => p_wire::run_c11(&mut v),
+        "C12" => p_wire::run_c12(&mut v),
+        "C13" => p_wire::run_c13(&mut v),
+        "C14" => p_wire::run_c14(&mut v),
+        "C16" => p_misc::run_c16(&mut v),
+        "C17" => p_misc::run_c17(&mut v),
         "C15" => p_c15::run(&mut v),
         _ => panic!("unknown property {}", prop),
     }));
